@@ -67,6 +67,8 @@ where
     ) -> Result<LocalChannelId, Error> {
         let id = {
             // NB: This cannot reasonably overflow.
+            #[cfg(aranya_verif)]
+            crate::verif::point(crate::verif::site::SHM_NEXT_ID, self.inner.shm().next_chan_id.as_ptr() as usize, 0);
             let next = self.inner.shm().next_chan_id.fetch_add(1, Ordering::SeqCst);
             LocalChannelId::new(next)
         };
@@ -89,6 +91,8 @@ where
 
             ShmChan::<CS>::init(chan, id, label_id, peer_id, &keys, &self.rng);
 
+            #[cfg(aranya_verif)]
+            crate::verif::point(crate::verif::site::SHM_GEN_BUMP, side.generation.as_ptr() as usize, 0);
             let generation = side.generation.fetch_add(1, Ordering::AcqRel);
             debug!("write side generation={}", generation + 1);
 
@@ -109,6 +113,8 @@ where
 
             ShmChan::<CS>::init(side.raw_at(idx)?, id, label_id, peer_id, &keys, &self.rng);
 
+            #[cfg(aranya_verif)]
+            crate::verif::point(crate::verif::site::SHM_GEN_BUMP, side.generation.as_ptr() as usize, 0);
             let generation = side.generation.fetch_add(1, Ordering::AcqRel);
             debug!("read side generation={}", generation + 1);
 
@@ -121,6 +127,8 @@ where
             off
         };
 
+        #[cfg(aranya_verif)]
+        crate::verif::point(crate::verif::site::SHM_WRITE_OFF_STORE, self.inner.shm().write_off.as_ptr() as usize, 0);
         self.inner
             .shm()
             .write_off
@@ -152,6 +160,8 @@ where
 
             // As a precaution, update the generation before we
             // do anything else.
+            #[cfg(aranya_verif)]
+            crate::verif::point(crate::verif::site::SHM_GEN_BUMP, side.generation.as_ptr() as usize, 0);
             let generation = side.generation.fetch_add(1, Ordering::AcqRel);
             debug!("write side generation={}", generation + 1);
 
@@ -170,6 +180,8 @@ where
 
             // As a precaution, update the generation before we
             // do anything else.
+            #[cfg(aranya_verif)]
+            crate::verif::point(crate::verif::site::SHM_GEN_BUMP, side.generation.as_ptr() as usize, 0);
             let generation = side.generation.fetch_add(1, Ordering::AcqRel);
             debug!("read side generation={}", generation + 1);
 
@@ -180,6 +192,8 @@ where
             off
         };
 
+        #[cfg(aranya_verif)]
+        crate::verif::point(crate::verif::site::SHM_WRITE_OFF_STORE, self.inner.shm().write_off.as_ptr() as usize, 0);
         self.inner
             .shm()
             .write_off
@@ -205,6 +219,8 @@ where
             off
         };
 
+        #[cfg(aranya_verif)]
+        crate::verif::point(crate::verif::site::SHM_WRITE_OFF_STORE, shm.write_off.as_ptr() as usize, 0);
         shm.write_off.store(read_off.into(), Ordering::SeqCst);
 
         Ok(())
@@ -239,6 +255,8 @@ where
             off
         };
 
+        #[cfg(aranya_verif)]
+        crate::verif::point(crate::verif::site::SHM_WRITE_OFF_STORE, shm.write_off.as_ptr() as usize, 0);
         shm.write_off.store(read_off.into(), Ordering::SeqCst);
 
         Ok(())
@@ -248,5 +266,18 @@ where
         let mutex = self.inner.load_write_list()?;
         let list = mutex.lock().assume("poisoned")?;
         list.exists(id, None, Op::Any)
+    }
+}
+
+#[cfg(aranya_verif)]
+impl<CS, R> WriteState<CS, R>
+where
+    CS: CipherSuite,
+    R: Csprng,
+{
+    /// Takes an unsynchronized snapshot of the shared memory for
+    /// verification.
+    pub fn verif_snapshot(&self) -> crate::verif::ShmSnapshot {
+        self.inner.verif_snapshot()
     }
 }
